@@ -208,6 +208,8 @@ def main():
         ("MapProof.tla", "swap-remove leaves the key set unchanged", "PROVE  Ks' = Ks \\ {slots[i]}", "PROVE  Ks' = Ks"),
         ("MapProofRetain.tla", "retain advances after a removal", "ELSE ri' = ri /\\ SwapRemove(ri)", "ELSE ri' = ri + 1 /\\ SwapRemove(ri)"),
         ("MapProofEq.tla", "== without the length comparison", "  /\\ Len(a) = Len(b)\n  /\\ \\A i \\in 1..Len(a) : \\E j", "  /\\ TRUE\n  /\\ \\A i \\in 1..Len(a) : \\E j"),
+        ("MapProofPanic.tla", "clear() resets len after the loop (the defect fixed by 5f69ba9)", "ClearStart == pc = \"idle\" /\\ n' = len /\\ len' = 0 /\\", "ClearStart == pc = \"idle\" /\\ n' = len /\\ len' = len /\\"),
+        ("MapProofPanic.tla", "clone publishes len first (the defect fixed by ba0bdd8)", "CloneStart == pc = \"idle\" /\\ tlen' = 0 /\\", "CloneStart == pc = \"idle\" /\\ tlen' = len /\\"),
         ("MapProofDisj.tla", "requests need not be pairwise different", "  /\\ Q \\in Seq(Keys) /\\ NoRepeat(Q)", "  /\\ Q \\in Seq(Keys)"),
     ]:
         d = fresh("tlaps")
